@@ -36,6 +36,22 @@ class _Clock(object):
 CLOCK = _Clock()
 
 
+class _Wall(object):
+  """The wall clock the system under test reads with time.time(): the loop's
+  clock plus an offset that a 'clock_step' fault moves (NTP step, VM resume).
+  gevent's own timers and time.monotonic() stay on the loop's clock."""
+  __slots__ = ('offset',)
+
+  def __init__(self):
+    self.offset = 0.0
+
+  def time(self):
+    return CLOCK.now + self.offset
+
+
+WALL = _Wall()
+
+
 class StepLimit(BaseException):
   pass
 
